@@ -76,7 +76,7 @@ func updatePolicyEngineObjectsFromDirPath(pe *eval.PolicyEngine, podNames []type
 	eLogger := logger.NewDefaultLoggerWithVerbosity(determineLogVerbosity())
 
 	rList, errs := fsscanner.GetResourceInfosFromDirPath([]string{dirPath}, true, false)
-	if errs != nil {
+	if len(errs) > 0 {
 		// TODO: consider avoid logging this error because it is already printed to log by the builder
 		if len(rList) == 0 || stopOnFirstError {
 			err := utilerrors.NewAggregate(errs)
